@@ -100,7 +100,7 @@ class Gen:
         x = self.fresh()
         name = self.fresh("in")
         self.input_names.add(name)
-        doc = r.choice(["", "", "doc " + name, 'with "quotes"'])
+        doc = r.choice(["", "", "doc " + name, 'with "quotes"', "  leading blanks and a trailing one ", "two\n    lines, the second indented\n", "\tafter a tab"])
         st = {"k": "input", "x": x, "name": name, "party": party or r.choice(self.parties), "doc": doc, "t": t}
         return st, t
 
